@@ -477,6 +477,18 @@ def c02_r4(ctx):
     W = WorkRoles(ctx.P)
     fns = [f for f in W.prod_fns() if f.calls_to(W.restore_local())]
     ctx.need(fns, "a caller of SysCache::restore_file")
+    # on the path that resolves against a remembered record, nobody else may say NeedsRebuild:
+    # a verdict built in a function that never asks the cache skips the restore altogether
+    rem = ctx.P.fns.get("blob::Blob::resolve_remembered_file_state_vec")
+    if rem is not None:
+        askers = {f.id for f in fns}
+        for fid in sorted(ctx.P.reachable_fns([rem.id])):
+            g = ctx.P.fns.get(fid)
+            if g is None or g.body.get("in_test") or g.kind == "promoted" or fid in askers:
+                continue
+            for (bb, idx, rv, pl) in g.constructs("blob::FileResolution", "NeedsRebuild"):
+                ctx.inst("NeedsRebuild in %s" % fid, g.where(bb, idx))
+                ctx.viol((fid, "rebuild-without-trying-cache"), "NeedsRebuild is returned without having tried the local cache", g.where(bb, idx))
     for f in fns:
         ctx.saw(f)
         rc = f.calls_to(W.restore_local())
